@@ -77,6 +77,9 @@ var w6qTopics = []string{"orders", "orders_eu"}
 func pkq[T any](r *rand.Rand, xs ...T) T { return xs[r.IntN(len(xs))] }
 
 func w6qGen(r *rand.Rand, prop, tier string) *simrt.Case {
+	if prop == "C07" || prop == "C34" {
+		return w6qGenDecode(r, prop)
+	}
 	c := &simrt.Case{Config: map[string]int64{}}
 	c.Config["data_seed"] = int64(r.Uint32())
 	c.Config["parts"] = int64(1 + r.IntN(3))
@@ -237,8 +240,29 @@ func w6qRun(t *testing.T, c *simrt.Case, prop string, keepTrace bool) simrt.Resu
 	w := &w6q{c: c}
 	res := simrt.Run(t, c, keepTrace, func(s *simrt.Sim) {
 		w.sim = s
+		if c.Cfg("decode_mode", 0) == 1 {
+			w.runDecodeOps()
+			return
+		}
 		w.setup()
-	}, func(s *simrt.Sim) { w.finish() })
+	}, func(s *simrt.Sim) {
+		if c.Cfg("decode_mode", 0) != 1 {
+			w.finish()
+		}
+	})
+	if len(res.Stats.TaskPanics) > 0 && res.Violation == nil && prop == "C34" {
+		lines := strings.Split(res.Stats.TaskPanics[0], "\n")
+		var keep []string
+		for _, l := range lines {
+			if strings.Contains(l, "sql-processor/internal/") && !strings.Contains(l, "zz_w6q") {
+				keep = append(keep, strings.TrimSpace(l))
+			}
+		}
+		if len(keep) > 3 {
+			keep = keep[:3]
+		}
+		res.Violation = &simrt.Violation{Property: "C34", Clause: "sql-decoder-panicked", Detail: lines[0] + " @ " + strings.Join(keep, " <- ")}
+	}
 	if res.Violation != nil && res.Violation.Property != prop {
 		res.Stats.Probes["foreign:"+res.Violation.Property+"/"+res.Violation.Clause]++
 		res.Violation = nil
